@@ -32,6 +32,17 @@ def generate(rng, tier):
                     c["r"] = [v - sh for v in c["r"]]
                     c["cutoff"] = max(c["cutoff"] - sh, c["r"][-1] * 0.5)
                     c["desc"]["negative_r"] = True
+                if rep == 3 and len(c["q"]) >= 4 and (Q + R) % 2 == 0:
+                    # a Q grid that is not stored in ascending order (two banks, the high-Q bank first; or descending)
+                    k = len(c["q"]) // 2
+                    perm = (list(range(k, len(c["q"]))) + list(range(k))) if (Q + R) % 4 == 0 else list(range(len(c["q"]) - 1, -1, -1))
+                    for key in ("q", "y", "dy"):
+                        if c[key] is not None:
+                            c[key] = [c[key][i] for i in perm]
+                    for key in ("f", "df"):
+                        if c["common"][key] is not None:
+                            c["common"][key] = [c["common"][key][i] for i in perm]
+                    c["desc"]["q_order"] = "two banks" if (Q + R) % 4 == 0 else "descending"
                 if rep == 1:  # a grid point exactly on the cutoff
                     c["cutoff"] = c["r"][max(1, len(c["r"]) // 2)]
                     c["desc"]["cutoff"] = "grid"
